@@ -10,6 +10,7 @@ package c08
 
 import (
 	"sort"
+	"strconv"
 	"strings"
 
 	"verifharness/gx"
@@ -66,8 +67,15 @@ func disjointCandidates(names []string, sufs []string) bool {
 // terminal that occurs in a body other than A → a; BIN ranges over the (shuffled) heads and draws names for every head
 // with a body of three or more symbols.  The names drawn for two terminals / two heads are independent of the order of the
 // draws exactly when their candidate lists are disjoint — always the case for hygienic names, not for a and aₙ, or A and
-// A₁.  For an unsafe (grammar, op) the generators compare languages only (`lang <op> <k>`), not result grammars.
+// A₁.  Besides, EliminateLeftRecursion, LeftFactor and BIN (hence ChomskyNormalForm) walk non-terminals and alternatives in
+// orders obtained by sorting with cmpProduction / cmpString, which compare String() renderings; with names that contain
+// blanks or quotes two different bodies can render alike, the comparator answers 0 for them and their order is whatever the
+// hash tables give (RenderInjective rules that out for the input and for every grammar derived from it).
+// For an unsafe (grammar, op) the generators compare languages (C08) / post-conditions (C09) only, not result grammars.
 func OrderSafe(g gx.G, op string) bool {
+	if sortedOrderOp(op) && !RenderInjective(g) {
+		return false
+	}
 	if op == "cnfterm" || op == "cnf" {
 		draw := map[string]bool{}
 		for _, p := range g.Prods {
@@ -76,7 +84,7 @@ func OrderSafe(g gx.G, op string) bool {
 			}
 			for _, w := range p.Body {
 				if isTermWord(g, w) {
-					draw[Bare(w)] = true
+					draw[NameOf(w)] = true
 				}
 			}
 		}
@@ -88,7 +96,7 @@ func OrderSafe(g gx.G, op string) bool {
 		draw := map[string]bool{}
 		for _, p := range g.Prods {
 			if len(p.Body) >= 3 {
-				draw[p.Head] = true
+				draw[NameOf(p.Head)] = true
 			}
 		}
 		if !disjointCandidates(hx.SortedKeys(draw), numericSufs) {
@@ -247,4 +255,198 @@ func SuffixedCases(g gx.G, mix string, safe, unsafe func(g gx.G, mix, op string)
 		}
 	}
 	return
+}
+
+// sortedOrderOp: the transformation walks its input in an order obtained by sorting with cmpProduction / cmpString.
+func sortedOrderOp(op string) bool {
+	switch op {
+	case "leftrec", "leftfactor", "cnfbin", "cnf":
+		return true
+	}
+	return false
+}
+
+// RenderInjective: no two different strings of symbols over names like g's can have the same String() rendering (symbols
+// joined by a blank, non-terminals bare, terminals %q).  Sufficient: no name is empty or contains a blank or a double quote,
+// and no non-terminal is called $ (the endmarker's rendering) or ε (the empty string's).  Fresh names (a name of g plus a
+// suffix) keep the condition.
+func RenderInjective(g gx.G) bool {
+	for _, w := range append(append([]string{}, g.NonTerms...), g.Terms...) {
+		n := NameOf(w)
+		if n == "" || strings.ContainsAny(n, " \"") {
+			return false
+		}
+	}
+	for _, w := range g.NonTerms {
+		if n := NameOf(w); n == "$" || n == "ε" {
+			return false
+		}
+	}
+	return true
+}
+
+// rendered is Symbol.String() / String[Symbol].String() re-stated for canonical words.
+func renderedWord(g gx.G, w string) string {
+	if isTermWord(g, w) {
+		if n := NameOf(w); n == endm {
+			return "$"
+		} else {
+			return strconv.Quote(n)
+		}
+	}
+	return NameOf(w)
+}
+
+func renderedBody(g gx.G, ws []string) string {
+	if len(ws) == 0 {
+		return "ε"
+	}
+	parts := make([]string, len(ws))
+	for i, w := range ws {
+		parts[i] = renderedWord(g, w)
+	}
+	return strings.Join(parts, " ")
+}
+
+// RenderedAlike lists groups of two or more different non-empty bodies of at most k symbols over g's symbols that String()
+// renders alike (none for RenderInjective names).
+func RenderedAlike(g gx.G, k int) [][][]string {
+	syms := append(append([]string{}, g.NonTerms...), g.Terms...)
+	by := map[string][][]string{}
+	var order []string
+	var walk func(cur []string)
+	walk = func(cur []string) {
+		if len(cur) > 0 {
+			r := renderedBody(g, cur)
+			if by[r] == nil {
+				order = append(order, r)
+			}
+			by[r] = append(by[r], append([]string{}, cur...))
+		}
+		if len(cur) == k {
+			return
+		}
+		for _, s := range syms {
+			walk(append(cur, s))
+		}
+	}
+	walk(nil)
+	var out [][][]string
+	for _, r := range order {
+		if len(by[r]) > 1 {
+			out = append(out, by[r])
+		}
+	}
+	return out
+}
+
+// WithRenderedAlike gives one head of g two (or three) alternatives that are different strings of symbols with the same
+// String() rendering — [A, «B A»] and [«A B», A] — neither of them a unit production.  ok=false when g's names allow none.
+func WithRenderedAlike(r *hx.Rand, g gx.G) (gx.G, bool) {
+	var groups [][][]string
+	for _, grp := range RenderedAlike(g, 3) {
+		var nonUnit [][]string
+		for _, b := range grp {
+			if !(len(b) == 1 && g.IsNonTerm(b[0])) {
+				nonUnit = append(nonUnit, b)
+			}
+		}
+		if len(nonUnit) >= 2 {
+			groups = append(groups, nonUnit)
+		}
+	}
+	if len(groups) == 0 {
+		return g, false
+	}
+	grp := hx.Pick(r, groups)
+	h := gx.G{Terms: append([]string{}, g.Terms...), NonTerms: append([]string{}, g.NonTerms...), Start: g.Start}
+	h.Prods = append(h.Prods, g.Prods...)
+	head := hx.Pick(r, g.NonTerms)
+	if r.Bool() {
+		head = g.Start
+	}
+	i := r.Intn(len(grp))
+	j := (i + 1 + r.Intn(len(grp)-1)) % len(grp)
+	h.Prods = append(h.Prods, gx.P{Head: head, Body: grp[i]}, gx.P{Head: head, Body: grp[j]})
+	seen := map[string]bool{}
+	var ps []gx.P
+	for _, p := range h.Prods {
+		k := p.Head + "→" + strings.Join(p.Body, " ")
+		if !seen[k] {
+			seen[k] = true
+			ps = append(ps, p)
+		}
+	}
+	h.Prods = ps
+	return h, true
+}
+
+// WithShadowedTerminal declares a terminal that no reachable production uses (it occurs in an unreachable production, or in
+// none) next to a non-terminal whose String() rendering is the terminal's: NonTerminal("\"z\"") for Terminal("z"),
+// NonTerminal("$") for the endmarker.  The non-terminal is used in a production of the start symbol.
+func WithShadowedTerminal(r *hx.Rand, g gx.G, endmarker bool) gx.G {
+	h := gx.G{Terms: append([]string{}, g.Terms...), NonTerms: append([]string{}, g.NonTerms...), Start: g.Start}
+	h.Prods = append(h.Prods, g.Prods...)
+	t, n := "z", WordOf("\"z\"")
+	if endmarker {
+		t, n = endm, WordOf("$")
+	}
+	h.Terms = append(h.Terms, t)
+	h.NonTerms = append(h.NonTerms, n)
+	h.Prods = append(h.Prods, gx.P{Head: n, Body: []string{hx.Pick(r, g.Terms)}})
+	if r.Bool() {
+		h.Prods = append(h.Prods, gx.P{Head: n, Body: []string{hx.Pick(r, g.Terms), n}})
+	}
+	h.Prods = append(h.Prods, gx.P{Head: g.Start, Body: []string{hx.Pick(r, g.Terms), n}})
+	if r.Intn(3) != 0 {
+		// the terminal does occur — in a production no derivation from the start symbol reaches
+		u := "Unreach"
+		h.NonTerms = append(h.NonTerms, u)
+		h.Prods = append(h.Prods, gx.P{Head: u, Body: []string{t, hx.Pick(r, g.NonTerms)}})
+	}
+	return Norm(h)
+}
+
+// NamedGrammar renames g (plain words) into scheme sc.
+func NamedGrammar(r *hx.Rand, g gx.G, sc gx.NameScheme) gx.G {
+	return Norm(gx.Rename(r, g, sc, r.Bool()))
+}
+
+// NamedGrammars draws the grammars of the `names` families: every scheme of gx.NameSchemes on random grammars (every other
+// one with two alternatives of one head that are rendered alike, where the scheme allows it) and grammars with a terminal
+// that only a like-rendered non-terminal keeps "in use".
+func NamedGrammars(r *hx.Rand, perScheme, shadowed int, f func(mix string, g gx.G)) {
+	for si, sc := range gx.NameSchemes {
+		for k := 0; k < perScheme; k++ {
+			g := NamedGrammar(r, GenGrammar(r, Mixes[(si+k)%len(Mixes)]), sc)
+			mix := "names-" + sc.Name
+			if k%2 == 1 {
+				if h, ok := WithRenderedAlike(r, g); ok {
+					g, mix = h, mix+"-rendered-alike"
+				}
+			}
+			if ok, _ := Valid(g); ok {
+				f(mix, g)
+			}
+		}
+	}
+	// two alternatives of one head that String() renders alike, on the schemes that have such bodies
+	var colliding []gx.NameScheme
+	for _, sc := range gx.NameSchemes {
+		if sc.Name == "spaces" || sc.Name == "like-terminals" || sc.Name == "odd" {
+			colliding = append(colliding, sc)
+		}
+	}
+	for k := 0; k < 2*perScheme; k++ {
+		sc := colliding[k%len(colliding)]
+		g := Norm(gx.Rename(r, GenGrammar(r, Mixes[k%len(Mixes)]), sc, k%3 != 2))
+		if h, ok := WithRenderedAlike(r, g); ok {
+			if ok, _ := Valid(h); ok {
+				f("names-"+sc.Name+"-rendered-alike", h)
+			}
+		}
+	}
+	for k := 0; k < shadowed; k++ {
+		f("names-shadowed-terminal", WithShadowedTerminal(r, GenGrammar(r, Mixes[k%len(Mixes)]), k%2 == 1))
+	}
 }
